@@ -34,6 +34,7 @@ import (
 	"github.com/xuperchain/xupercore/lib/storage/kvdb"
 	"github.com/xuperchain/xupercore/lib/timer"
 	"github.com/xuperchain/xupercore/lib/utils"
+	"github.com/xuperchain/xupercore/lib/verifhook"
 	"github.com/xuperchain/xupercore/protos"
 )
 
@@ -680,6 +681,7 @@ func (t *State) Walk(blockid []byte, ledgerPrune bool) error {
 	xTimer.Mark("walk_todo_block")
 
 	// 异步回放被回滚未确认交易
+	verifhook.AsyncStart()
 	go t.recoverUnconfirmedTx(undoList)
 
 	t.log.Info("utxo walk finish", "dest_block", hex.EncodeToString(blockid),
@@ -1194,6 +1196,7 @@ func (t *State) payFee(tx *pb.Transaction, batch kvdb.Batch, block *pb.InternalB
 }
 
 func (t *State) recoverUnconfirmedTx(undoList []*pb.Transaction) {
+	defer verifhook.AsyncDone()
 	xTimer := timer.NewXTimer()
 	t.log.Info("start recover unconfirm tx", "tx_count", len(undoList))
 
